@@ -34,7 +34,7 @@ def Kind.baseName (k : Kind F) (mulStr : String) (lengthGiven : Bool) : String :
   | .bbands p _ => s!"BBANDS_{p}" | .kc p _ _ => s!"KC_{p}_{mulStr}"
   | .donchian p => s!"DONCHIAN_{p}" | .hl p => s!"HL_{p}" | .hla => "HLA"
   | .supertrend p _ _ => s!"Supertrend_{p}" | .stdevthres p _ _ => s!"STDEVTHRES_{p}"
-  | .counter input _ => "COUNT_" ++ (input.splitOn ".").headD ""
+  | .counter input _ => "COUNT_" ++ (splitDot input).headD ""
   | .rsi p _ => s!"RSI_{p}" | .macd f s g _ => s!"MACD_{f}_{s}_{g}" | .roc _ _ => "ROC"
   | .stoch p _ _ _ => s!"STOCH_{p}" | .tsi p _ _ => s!"TSI_{p}_{p / 2}"
   | .aroon p => s!"AROON_{p}" | .adx p s => s!"ADX_{p}_{s}" | .obv => "OBV" | .vwap p => s!"VWAP_{p}"
